@@ -33,6 +33,7 @@ func RunGated(r *Run, node execution.Node, ctl *Ctl, produce execution.ProduceFn
 func RunGatedPool(r *Run, node execution.Node, jsonWorkers int, ctl *Ctl, produce execution.ProduceFn, metaSend execution.MetaSendFn,
 	choose func(enabled []string) int, stepCap int) GatedOutcome {
 	var out GatedOutcome
+	rule := newJSONRule()
 	p := bubbleRecover(r, func() {
 		if jsonWorkers > 0 {
 			jsonds.SimStartParserPool(jsonWorkers)
@@ -66,12 +67,19 @@ func RunGatedPool(r *Run, node execution.Node, jsonWorkers int, ctl *Ctl, produc
 				out.Deadlock = true
 				break
 			}
-			pick := 0
-			if len(en) > 1 {
-				pick = choose(en)
+			// the JSON rule may hold some gates back; choose among the rest
+			allowed := rule.filter(en)
+			sub := make([]string, len(allowed))
+			for i, idx := range allowed {
+				sub[i] = en[idx]
 			}
-			r.Log("release %s", en[pick])
-			ctl.Release(en[pick])
+			pick := 0
+			if len(sub) > 1 {
+				pick = choose(sub)
+			}
+			r.Log("release %s of %d/%d", sub[pick], len(sub), len(en))
+			rule.released(sub[pick])
+			ctl.Release(sub[pick])
 		}
 		out.Leaked = len(ctl.Enabled())
 		ctl.Abort()
